@@ -14,8 +14,8 @@ invariant `Wired` between the pool state and a *ghost log* of what the pool proc
 * `finOps L` — the operations the finality tracker received; `prTrace L` — the operations the parent-ready
   tracker received (marks, finalization batches with the events of the finality tracker, prunes to
   `first_unpruned_slot`);
-* `Consistent L` — the premise on the history (C01): `Finality.Safe (finOps L)` and no skip certificate for a
-  finalized slot;  `Consistent L → ParentReady.SafeRun (prTrace L)`;
+* `Consistent L` — the premise on the history (C01): `Finality.Safe (finOps L)`, no skip certificate for a
+  finalized slot, the only finalized block of slot 0 is genesis;  `Consistent L → ParentReady.SafeRun (prTrace L)`;
 * `Wired p L` — `p.fin` is the finality tracker after `finOps L`, `p.pr` the parent-ready tracker after `prTrace L`.
 -/
 namespace AgModel.Pool
@@ -166,6 +166,11 @@ theorem prTrace_snoc (L : List LogItem) (it : LogItem) :
 structure Consistent (L : List LogItem) : Prop where
   safe : Finality.Safe (finOps L)
   skip_not_final : ∀ c, LogItem.cert c ∈ L → c.kind = .skip → ∀ h, ¬ Finality.Final (finOps L) (c.slot, h)
+  /-- the only finalized block of slot 0 is genesis (the finalized blocks form a chain from genesis).  Until the D27
+      repair this was a consequence of `Finality.Safe` (its clause "the notarized block of a slot is the `Final` one",
+      genesis counting as notarized); that clause was too strong and is gone, so the fact is stated here, at the
+      pool level, where the parent-ready tracker's genesis mark needs it. -/
+  genesis : ∀ h, Finality.Final (finOps L) (0, h) → h = 0
 
 theorem finOps_sub {A B : List LogItem} (h : ∀ x, x ∈ A → x ∈ B) : Finality.Sub (finOps A) (finOps B) := by
   intro op hop
@@ -176,7 +181,8 @@ theorem finOps_sub {A B : List LogItem} (h : ∀ x, x ∈ A → x ∈ B) : Final
 
 /-- the premise is inherited by every sub-log (in particular by every prefix) -/
 theorem Consistent.sub {A B : List LogItem} (hc : Consistent B) (h : ∀ x, x ∈ A → x ∈ B) : Consistent A :=
-  ⟨hc.safe.sub (finOps_sub h), fun c hm hk hh hf => hc.skip_not_final c (h _ hm) hk hh (hf.mono (finOps_sub h))⟩
+  ⟨hc.safe.sub (finOps_sub h), fun c hm hk hh hf => hc.skip_not_final c (h _ hm) hk hh (hf.mono (finOps_sub h)),
+   fun hh hf => hc.genesis hh (hf.mono (finOps_sub h))⟩
 
 theorem Consistent.prefix {A B : List LogItem} (hc : Consistent (A ++ B)) : Consistent A :=
   hc.sub (fun _ hx => List.mem_append_left _ hx)
@@ -1444,9 +1450,10 @@ theorem skCertAcc_above {L : List LogItem} (hs : Finality.Safe (finOps L)) {s : 
 /-- `Consistent` with bounded quantifiers -/
 def ConsistentC (L : List LogItem) : Prop :=
   Finality.Safe (finOps L) ∧
-  ∀ it ∈ L, match it with
+  (∀ it ∈ L, match it with
     | .cert c => c.kind = .skip → ∀ b ∈ Finality.finals (finOps L), b.1 ≠ c.slot
-    | .block _ _ => True
+    | .block _ _ => True) ∧
+  ∀ b ∈ Finality.finals (finOps L), b.1 = 0 → b.2 = 0
 
 instance (L : List LogItem) : Decidable (ConsistentC L) := by
   unfold ConsistentC
@@ -1458,16 +1465,21 @@ instance (L : List LogItem) : Decidable (ConsistentC L) := by
 
 theorem consistentC_iff {L : List LogItem} : ConsistentC L ↔ Consistent L := by
   constructor
-  · rintro ⟨sf, h⟩
-    refine ⟨sf, fun c hm hk hh hf => ?_⟩
-    exact h (.cert c) hm hk (c.slot, hh) ((Finality.mem_finals sf.link_lt).mpr hf) rfl
-  · rintro ⟨sf, h⟩
-    refine ⟨sf, fun it hm => ?_⟩
-    cases it with
-    | block b par => trivial
-    | cert c =>
-      intro hk b hb e
-      exact h c hm hk b.2 (by rw [← e]; exact (Finality.mem_finals sf.link_lt).mp hb)
+  · rintro ⟨sf, h, hg⟩
+    refine ⟨sf, fun c hm hk hh hf => ?_, fun hh hf => ?_⟩
+    · exact h (.cert c) hm hk (c.slot, hh) ((Finality.mem_finals sf.link_lt).mpr hf) rfl
+    · exact hg (0, hh) ((Finality.mem_finals sf.link_lt).mpr hf) rfl
+  · rintro ⟨sf, h, hg⟩
+    refine ⟨sf, fun it hm => ?_, fun b hb e => ?_⟩
+    · cases it with
+      | block b par => trivial
+      | cert c =>
+        intro hk b hb e
+        exact h c hm hk b.2 (by rw [← e]; exact (Finality.mem_finals sf.link_lt).mp hb)
+    · have hf := (Finality.mem_finals sf.link_lt).mp hb
+      have hb' : b = (0, b.2) := Prod.ext e rfl
+      rw [hb'] at hf
+      exact hg b.2 hf
 
 instance (L : List LogItem) : Decidable (Consistent L) := decidable_of_iff _ consistentC_iff
 
